@@ -44,7 +44,7 @@ if [ ! -x $DRV/drv ] || [ -n "$(find $H $LIB/src/libascon_static.a -newer $DRV/d
   # entropy source stays substituted), so that the mixer's use of a permutation state is exercised
   [ $REALMASK = 1 ] && WRAP="-Wl,--wrap=ascon_trng_generate"
   g++ -std=c++11 $DRVF $DEFS -Wall -Wno-unused-function -DHAVE_CONFIG_H -I$REPO/src -I$LIB -I$H \
-      $(ls $H/drv_*.cpp $H/wrap_trng.cpp) $LIB/src/libascon_static.a \
+      $(ls $H/drv_*.cpp $H/wrap_trng.cpp) $H/tramp_x86_64.S $LIB/src/libascon_static.a \
       $WRAP \
       -lpthread -o $DRV/drv.tmp 2>$DRV/build.log || { cat $DRV/build.log >&2; exit 4; }
   mv $DRV/drv.tmp $DRV/drv
